@@ -26,22 +26,37 @@ def pairs : List Nat → List (Nat × Nat)
   | a :: b :: r => (a, b) :: pairs r
   | _ => []
 
+/-- kind token of the op files: `A L T R B`, optionally followed by element-type letters (`p` small probe, `g` large
+    probe): one for A/L, two for T/R.  The ownership model does not depend on the element type (both probe types
+    construct / assign / destruct alike and are convertible), so the letters are only validated. -/
+def parseKind (s : String) (allowed : String) : Option Char :=
+  match s.toList with
+  | [] => none
+  | k :: rest =>
+    if !allowed.toList.contains k then none
+    else if !rest.all (fun c => c == 'p' || c == 'g') then none
+    else if rest.isEmpty then some k
+    else if (k == 'A' || k == 'L') && rest.length == 1 then some k
+    else if (k == 'T' || k == 'R') && rest.length == 2 then some k
+    else none
+
 def parseOp (ws : List String) : Option Op :=
   match ws with
   | ["new", c, k] => do
     let c ← parseNat c
-    let k ← match k with
-      | "A" => some CKind.arr | "L" => some .lst | "T" => some .tbl | "R" => some .tre | "B" => some .boxArr
+    let k ← match parseKind k "ALTRB" with
+      | some 'A' => some CKind.arr | some 'L' => some .lst | some 'T' => some .tbl | some 'R' => some .tre
+      | some 'B' => some .boxArr
       | _ => none
     pure (.new c k)
   | "newv" :: c :: k :: ps => do
     let c ← parseNat c
-    let k ← match k with | "A" => some SeqKind.array | "L" => some .list | _ => none
+    let k ← match parseKind k "AL" with | some 'A' => some SeqKind.array | some 'L' => some .list | _ => none
     let ps ← parseNats ps
     pure (.newSeq c k ps)
   | "newm" :: c :: k :: ps => do
     let c ← parseNat c
-    let k ← match k with | "T" => some MapKind.table | "R" => some .tree | _ => none
+    let k ← match parseKind k "TR" with | some 'T' => some MapKind.table | some 'R' => some .tree | _ => none
     let ps ← parseNats ps
     if ps.length % 2 != 0 then none else pure (.newMap c k (pairs ps))
   | ["box", c, p] => do pure (.box (← parseNat c) (← parseNat p))
